@@ -153,11 +153,30 @@ def vary_minors(r, b, l, rm, allow5=False):
     return b, l, rm
 
 
+def upgrade_triple(r):
+    """a pre-4.5 notebook re-saved as 4.5 on one side (minor 5, every cell gets an id, maybe a source edit) while the other
+    side keeps a pre-4.5 minor (possibly another one) and only edits existing cells"""
+    bm = r.choice([0, 2, 3, 4, 4])
+    b = gennb.gen_notebook(r, minor=bm, ncells=r.choice([1, 2, 3, 4]), rich=False)
+    up = copy.deepcopy(b); up['nbformat_minor'] = 5
+    used = set()
+    for c in up['cells']: c['id'] = gennb.gen_id(r, used)
+    other = copy.deepcopy(b); other['nbformat_minor'] = r.choice([m for m in (0, 1, 2, 3, 4) if m >= bm])
+    i = r.randrange(len(b['cells']))
+    other['cells'][i]['source'] = gennb.edit_source_text(r, other['cells'][i]['source'], other['cells'][i]['cell_type'])
+    if r.random() < 0.5:
+        j = r.randrange(len(b['cells']))
+        up['cells'][j]['source'] = gennb.edit_source_text(r, up['cells'][j]['source'], up['cells'][j]['cell_type'])
+    if r.random() < 0.5: return ('upgrade45:local', b, up, other)
+    return ('upgrade45:remote', b, other, up)
+
+
 def gen_triples(r, n, repo, minors_mix=0.15):
     """-> [(name, base, local, remote)]: hand-made (every minor), fixtures, generated"""
     out = []
     for k in range(6): out += [('hand:%s@4.%d' % (nm, k), b, l, rm) for nm, b, l, rm in handmade(k)]
     out += fixture_triples(repo)
+    for _ in range(max(6, n // 12)): out.append(upgrade_triple(r))
     i = 0
     while len(out) < n:
         minor = r.choice([0, 1, 2, 3, 4, 4, 5, 5, 5])
